@@ -95,6 +95,11 @@ def main(tier=None):
     ops, cases, checks = [], 0, {}
     for _ in range(150 if c.tier == "quick" else 2500):
         ops.append("reset")
+        if rng.random() < 0.25:
+            # one or both receivers hear of everything a long time (8 h 20 min of their clocks) after it happened
+            ops.append("off 1 30000000000000")
+            if rng.random() < 0.5:
+                ops.append("off 2 30000000000007")
         n = rng.choice([4, 6, 9, 14])
         for j in range(n):
             if rng.random() < 0.3:
@@ -132,6 +137,25 @@ def main(tier=None):
         return out
     c.run_suite(Suite("gossip-two-receivers", "dist", ops, mon3, {"cases": cases, "nontrivial": cases}, resets=("reset",)))
     samples.append({"suite": "gossip-two-receivers", "ops": ops[:24]})
+    # --- suite 4: every node acts (adds, removes) AND receives, gossip arrives late and repeatedly: a store only moves
+    # forward — an older update never brings back what a newer one (of whichever node) removed, no removal is forgotten
+    ops, cases = [], 0
+    for _ in range(150 if c.tier == "quick" else 2500):
+        ops += ["reset", "off 0 0", "off 1 5", "off 2 3"]
+        sent = [0, 0]
+        for _ in range(rng.choice([4, 7, 11])):
+            n = rng.choice([0, 1])
+            ops.append(distlib.random_local_op(rng, n, bulk_bias=0.1))
+            sent[n] += 1
+            ops.append(f"full {n}")
+            for _ in range(rng.choice([0, 1, 1, 2])):
+                m = rng.choice([0, 1])
+                if sent[m] > 0:
+                    ops.append(f"deliver {m} {rng.randrange(sent[m])} {1 - m}")
+                    ops.append(f"full {1 - m}")
+        cases += 1
+    c.run_suite(Suite("gossip-both-ways-with-redelivery", "dist", ops, distlib.monotone_store, {"cases": cases, "nontrivial": cases}, resets=("reset",)))
+    samples.append({"suite": "gossip-both-ways-with-redelivery", "ops": ops[:16]})
     c.assumptions += ["TieFree: distinct updates of one key carry distinct timestamps (necessity proven: tie_counterexample)",
                       "retained topics are topic names without wildcard levels; ids/patterns/topics non-empty (what merge itself validates)"]
     return c.finish(samples=samples,
